@@ -19,7 +19,7 @@ ID = "C17"
 LEVEL = "exploration"
 RULE = (
     "Hypothesis draws C04-style fresh runs (all families/boxes/starts, callable gradient, ftarget float/callable/None, stopping callback, all budgets) and a scaler value s = 10^u, u in [-3,3] "
-    "(powers of two included on purpose) or the packaged projected-gradient unit scaler. Run 1 uses gradient_scaler; run 2 minimises the harness-built objective s*f, s*grad f without scaler "
+    "(powers of two included on purpose) or the packaged projected-gradient unit scaler; the user gradient either returns fresh arrays or one reused output buffer. Run 1 uses gradient_scaler; run 2 minimises the harness-built objective s*f, s*grad f without scaler "
     "(ftarget multiplied by s when s is a power of two; otherwise the target clause is judged on run 1 alone). non-trivial = >=2 iterations and s outside [0.5, 2]; distinct = distinct spec"
 )
 ASSUMPTIONS = [
@@ -51,9 +51,11 @@ def check(spec, stats=None):
     ft, ftv = resolve_ftarget(rspec, prob)
     r1 = dict(rspec)
     r1["scaler"] = sc
-    t1 = execute(r1, prob=prob)
+    style = spec.get("jac_style", "fresh")
+    t1 = execute(r1, prob=prob, jac_style=style)
     if t1.exc is not None:
         raise t1.exc
+    require(t1.user_array_modified == 0, "user-gradient-array-untouched", "the array returned by the user's gradient was modified by the library")
     # scaler protocol
     if t1.res["njev"] >= 1:
         require(len(t1.scaler_calls) == 1, "scaler-invoked-once", f"scaler called {len(t1.scaler_calls)} times although a gradient was computed")
@@ -82,7 +84,7 @@ def check(spec, stats=None):
         over = {}
         if ft is not None:
             over["ftarget"] = ft2
-        t2 = execute(r2, prob=prob, obj=Scaled(prob.obj, s), **over)
+        t2 = execute(r2, prob=prob, obj=Scaled(prob.obj, s), jac_style=style, **over)
         if t2.exc is not None:
             raise t2.exc
         early = t1.res["njev"] == 0  # target met at the start: run 1 returns the unscaled f0, run 2 returns s*f0
@@ -104,7 +106,7 @@ def check(spec, stats=None):
                     f"early target stop differs: {t1.res['message']!r} vs {t2.res['message']!r}")
     if stats is not None:
         stats.case(spec, t1.res["nit"] >= 2 and not (0.5 <= s <= 2.0),
-                   [f"scaler={'unit' if sc == 'unit' else 'pow2' if is_pow2(s) else 'const'}", f"compared={compare}", f"msg={t1.res['message'][:26]}",
+                   [f"scaler={'unit' if sc == 'unit' else 'pow2' if is_pow2(s) else 'const'}", f"compared={compare}", f"jac_style={style}", f"msg={t1.res['message'][:26]}",
                     f"nit={'0' if t1.res['nit'] == 0 else '1' if t1.res['nit'] == 1 else '2+'}"],
                    sample={"family": rspec["problem"]["obj"]["family"], "s": s, "cfg": rspec["cfg"], "ftarget": rspec.get("ftarget"), "compared_bitwise": compare})
 
@@ -120,7 +122,7 @@ def strategy(draw):
         sc = 2.0 ** draw(st.integers(-9, 9))
     else:
         sc = "unit"
-    return {"run": r, "scaler": sc}
+    return {"run": r, "scaler": sc, "jac_style": draw(st.sampled_from(["fresh", "fresh", "buffer"]))}
 
 
 def shard(ctx):
